@@ -10,7 +10,10 @@
 (* and read when it is called: in a.push(b.push(1)) the outer call acts on   *)
 (* b).                                                                       *)
 (* Mode = "depth": <= MaxOps operations over Small; "breadth": over Big;     *)
-(* "given": the histories of given.json (Trace_List validates long ones).    *)
+(* "nested" / "nestedbig": <= MaxOps operations over SmallN / BigN on arrays *)
+(* that hold arrays: a[i].m(args) with arguments that change a itself;       *)
+(* "given": the histories of given.json, each with its own initial arrays    *)
+(* (long arrays with many ties for sort / contains).                         *)
 EXTENDS JqHeap
 CONSTANTS Mode, MaxOps
 
@@ -29,9 +32,12 @@ Big ==
   {SExpr(Call1("push", a, LLit(v))) : a \in AB, v \in PushVals}
   \cup {SExpr(Call0(m, a)) : m \in {"pop", "popfirst", "length", "sort"}, a \in AB}
   \cup {SExpr(Call1("contains", a, LLit(v))) : a \in AB, v \in FindVals}
-  \cup {SExpr(LGet(a, i)) : a \in AB, i \in {0, 1, -1, -3}}
-  \cup {SSet(a, i, Num(7)) : a \in AB, i \in {0, 2, -1, -3}}
-  \cup {SInc(a, i) : a \in AB, i \in {0, -1}}
+  \cup {SExpr(LGet(a, i)) : a \in AB, i \in {0, 1, 3, -1, -3}}
+  \* index writes: in range, appending, one past the end, two and more past the end (several padding
+  \* nulls made by one write, each of which a later write / ++ must be able to change alone), negative
+  \cup {SSet(a, i, Num(7)) : a \in AB, i \in {0, 1, 2, 4, -1, -3}}
+  \cup {SSet(a, 3, Str("b")) : a \in AB}
+  \cup {SInc(a, i) : a \in AB, i \in {0, 1, 2, -1, -2}}
   \cup {SExpr(Call1(m, a, x)) : m \in {"push", "contains"}, a \in AB, x \in UNION {Inner(y) : y \in AB}}
   \cup {SExpr(Call1("push", a, Call1("push", b, Call0("pop", a)))) : a, b \in AB}
   \cup {SExpr(Call1("contains", a, Call1("contains", b, Call0("length", a)))) : a, b \in AB}
@@ -43,13 +49,36 @@ Small ==
   \cup {SExpr(Call1("contains", "a", LLit(v))) : v \in {Num(2), Null, Num(0)}}
   \cup {SExpr(Call1("push", "a", LGet("b", 5))), SExpr(Call1("push", "a", LGet("a", 5)))}   \* followed by a[2] = 7 / a[0] = 7
   \cup {SExpr(LGet("a", -1)), SExpr(LGet("a", -3)), SSet("a", 0, Num(7)), SSet("a", 2, Num(7)), SSet("b", -1, Num(7))}
+  \cup {SSet("b", 3, Num(7)), SSet("b", 1, Str("b")), SInc("b", 2)}     \* two padding nulls, then one of them written
   \cup {SExpr(Call1("push", "a", Call1("push", "b", LLit(Num(2))))), SExpr(Call1("push", "b", Call0("pop", "a"))),
         SExpr(Call1("push", "a", Call0("popfirst", "a"))), SExpr(Call1("contains", "a", Call0("length", "b"))),
         SExpr(Call1("contains", "a", Call1("contains", "b", LLit(Num(2))))),
         SExpr(Call1("push", "a", Call1("push", "b", Call0("pop", "a")))) }
 
+\* arrays inside arrays: the receiver is an element of a / b, the arguments change a / b themselves
+CallAt0(m, a, i) == LCallAt(m, a, i, <<>>)
+CallAt1(m, a, i, x) == LCallAt(m, a, i, <<x>>)
+RecvIdx == {0, 1, -1, -2}
+ArgsN(y) == {Call0("pop", y), Call0("popfirst", y), Call0("length", y), LGet(y, 1), CallAt0("pop", y, 0), CallAt0("length", y, -1),
+             Call1("contains", y, LLit(Num(5)))}
+OuterN == {SExpr(Call0(m, a)) : m \in {"pop", "popfirst", "length"}, a \in AB}
+          \cup {SExpr(Call1("push", a, LLit(v))) : a \in AB, v \in {Num(2), Str("b")}}
+          \cup {SExpr(LGet(a, i)) : a \in AB, i \in {0, -1}}
+BigN ==
+  {SExpr(CallAt1(m, a, i, x)) : m \in {"push", "contains"}, a \in AB, i \in RecvIdx, x \in {LLit(Num(2))} \cup UNION {ArgsN(y) : y \in AB}}
+  \cup {SExpr(CallAt0(m, a, i)) : m \in {"pop", "popfirst", "length", "sort"}, a \in AB, i \in RecvIdx}
+  \cup OuterN
+SmallN ==
+  UNION {{SExpr(CallAt1(m, a, i, x)) : m \in {"push", "contains"}, i \in {0, -1, -2}, x \in {Call0("pop", a), Call0("popfirst", a), Call0("length", a)}} : a \in AB}
+  \cup {SExpr(CallAt1("push", "a", i, x)) : i \in {0, -1}, x \in {LLit(Num(2)), Call0("pop", "b"), CallAt0("pop", "a", 0), LGet("b", 1)}}
+  \cup {SExpr(CallAt0(m, a, -1)) : m \in {"pop", "popfirst", "length", "sort"}, a \in AB}
+  \cup {SExpr(Call0("popfirst", "a")), SExpr(Call0("pop", "b")), SExpr(Call1("push", "a", LLit(Num(2)))), SExpr(LGet("a", -1))}
+
 -----------------------------------------------------------------------------
 Init0 == LS(<<ArrC(<<Num(10), Num(2)>>), ArrC(<<Str("b")>>), ArrC(<<>>)>>, {}, {})
+\* a = [[1], [2, 5]], b = [[3], 5, [5, 2]]
+InitN == LS(<<ArrC(<<Arr(4), Arr(5)>>), ArrC(<<Arr(6), Num(5), Arr(7)>>), ArrC(<<>>),
+              ArrC(<<Num(1)>>), ArrC(<<Num(2), Num(5)>>), ArrC(<<Num(3)>>), ArrC(<<Num(5), Num(2)>>)>>, {}, {})
 
 (* spec-level laws of the ideal list, evaluated on every step *)
 \* a law: where its antecedent holds its consequence must; chk records that it was exercised (vacuity)
@@ -124,7 +153,18 @@ StepLaws(s, st, r) ==
            /\ \A k \in Named \ {Id(st.a)} : r.s.h[k] = s.h[k]),
   \* a nested call on the other array leaves the outer call's receiver the outer one
   L("nested", st.op = "expr" /\ st.x.e = "call" /\ st.x.args # <<>> /\ st.x.args[1].e = "call" /\ r.status = "ok" /\ m = "push",
-        Len(new) >= 1 /\ r.res = Arr(id)) })
+        Len(new) >= 1 /\ r.res = Arr(id)),
+  \* a[i].push(x) acts on the array a[i] held when the call was entered: that array ends with the value
+  \* of x and is the result, whatever evaluating x did to a; no other array grows
+  L("recv", st.op = "expr" /\ st.x.e = "callat" /\ m = "push" /\ r.status = "ok",
+        LET rid == RecvAt(s, st.x.a, st.x.i).id
+            ra == Eval(s, st.x.args[1])             \* the argument alone
+            now == r.s.h[rid].items
+        IN /\ r.res = Arr(rid) /\ now # <<>> /\ now[Len(now)] = ra.res
+           /\ \A k \in 1..Len(ra.s.h) : k # rid => r.s.h[k] = ra.s.h[k]),
+  \* ... also when evaluating x removed that array from a or moved it to another index
+  L("recvmoved", st.op = "expr" /\ st.x.e = "callat" /\ st.x.args # <<>> /\ r.status = "ok"
+                 /\ LET rc == RecvAt(r.s, st.x.a, st.x.i) IN rc.st # "ok" \/ rc.id # RecvAt(s, st.x.a, st.x.i).id, TRUE) })
 
 -----------------------------------------------------------------------------
 VARIABLES hist, cur, sts, out, fin, law, idx
@@ -141,7 +181,8 @@ Apply2(h, c, g, o, st, rI) ==
       out |-> Append(o, [exp |-> eI, dev |-> IF eD = eI THEN <<>> ELSE <<eD>>]),
       fin |-> rI.status # "ok",
       law |-> StepLaws(c["I"], st, rI)]
-Start == [hist |-> <<>>, cur |-> [I |-> Init0, D |-> Init0], sts |-> [I |-> "ok", D |-> "ok"], out |-> <<>>, fin |-> FALSE, law |-> NoLaw]
+StartFrom(i0) == [hist |-> <<>>, cur |-> [I |-> i0, D |-> i0], sts |-> [I |-> "ok", D |-> "ok"], out |-> <<>>, fin |-> FALSE, law |-> NoLaw]
+Start == StartFrom(IF Mode \in {"nested", "nestedbig"} THEN InitN ELSE Init0)
 
 RECURSIVE RunGiven(_, _)
 RunGiven(s, ops) ==
@@ -149,18 +190,20 @@ RunGiven(s, ops) ==
   ELSE LET rI == Exec(s.cur["I"], Head(ops), FALSE) IN
        IF rI.status \notin {"ok", "error"} THEN RunGiven(s, Tail(ops))
        ELSE LET t == Apply2(s.hist, s.cur, s.sts, s.out, Head(ops), rI) IN RunGiven([t EXCEPT !.law = LAll({@, s.law})], Tail(ops))
+\* given.json: a sequence of [init |-> <<items of a, items of b, items of c>>, ops |-> statements]
 Given == IF Mode = "given" THEN JsonDeserialize("given.json") ELSE <<>>
+GivenInit(g) == LS([k \in 1..3 |-> ArrC(g.init[k])], {}, {})
 
 Init == /\ hist = <<>> /\ cur = Start.cur /\ sts = Start.sts /\ out = <<>> /\ fin = FALSE /\ law = NoLaw
         /\ idx \in (IF Mode = "given" THEN 1..Len(Given) ELSE {0})
 NextGiven ==
   /\ Mode = "given" /\ hist = <<>> /\ ~fin
-  /\ LET s == RunGiven(Start, Given[idx]) IN
+  /\ LET s == RunGiven(StartFrom(GivenInit(Given[idx])), Given[idx].ops) IN
      /\ hist' = s.hist /\ cur' = s.cur /\ sts' = s.sts /\ out' = s.out /\ law' = s.law /\ fin' = TRUE
   /\ UNCHANGED idx
 NextOp ==
   /\ Mode # "given" /\ ~fin /\ Len(hist) < MaxOps /\ UNCHANGED idx
-  /\ \E st \in (IF Mode = "depth" THEN Small ELSE Big) :
+  /\ \E st \in (CASE Mode = "depth" -> Small [] Mode = "breadth" -> Big [] Mode = "nested" -> SmallN [] Mode = "nestedbig" -> BigN) :
        LET rI == Exec(cur["I"], st, FALSE) IN
        /\ rI.status \in {"ok", "error"}
        /\ LET s == Apply2(hist, cur, sts, out, st, rI) IN
@@ -175,6 +218,7 @@ Compact(tr) ==
     [] OTHER -> "~" \o tr.t
 CompactExp(e) == IF e.st # "ok" THEN e
                  ELSE [st |-> "ok", res |-> Compact(e.res), arrs |-> [k \in 1..Len(e.arrs) |-> Compact(e.arrs[k])], lens |-> e.lens]
-Vec == hist # <<>> => Emit([ops |-> hist, chk |-> law.chk, steps |-> [i \in 1..Len(out) |->
+InitOf == IF Mode = "given" THEN GivenInit(Given[idx]) ELSE Start.cur["I"]
+Vec == hist # <<>> => Emit([ops |-> hist, chk |-> law.chk, init |-> [k \in 1..NArr |-> Compact(LTree(InitOf, Arr(k), TRUE, 5))], steps |-> [i \in 1..Len(out) |->
           [exp |-> CompactExp(out[i].exp), dev |-> [k \in 1..Len(out[i].dev) |-> CompactExp(out[i].dev[k])]]]])
 =============================================================================
